@@ -88,7 +88,7 @@ CHECKS["C12"] = (TV, "compiler run concretely (reject / unbuildable are allowed 
 
 CHECKS["C14"] = (MC, "bounded symbolic execution (SSA->SMT, z3) of compiled generators under all interleavings of k iterators, plus heap-footprint disjointness",
     "For compiled corpus generators (loops, locals, closures, delegation incl. a recursive delegator) a driver drains k iterators alone and then advances fresh instances under every "
-    "interleaving that gives each exactly m steps (forked by the executor; k=2,m=3 quick, k=3,m=3 thorough); arguments are symbolic and the solver decides that each iterator's "
+    "interleaving that gives each exactly m steps (forked by the executor; k=2,m=3 quick, k=3,m=2 thorough); arguments are symbolic and the solver decides that each iterator's "
     "log (yields + generator-side effects) equals its solo log. The goroutine clause is NOT decided as stated: goroutines are not modelled; instead the engine tags every heap "
     "access with the iterator being advanced and asserts that no cell written under one is touched under another (footprint non-interference).", "§6 C14")
 
